@@ -612,14 +612,31 @@ fn c06_oracle(obs: &Obs, cx: &Cx) -> CheckResult {
     }
     // (1) sat already carries an inscription => reinscription charm
     if !inscription.sat_occupants_before.is_empty() && !reinscription {
-      let how = if inscription.occupied_by_earlier_tx { "earlier-tx" } else { "same-tx" };
+      // ord collects the inscriptions already on the inputs while it walks
+      // them, so an effective pointer into a *later* input is its own class
+      let later_input = inscription.pointer_effective
+        && inscription.target_input.is_some_and(|target| target > inscription.input as usize);
+      let how = if later_input {
+        "pointer-into-later-input"
+      } else if inscription.occupied_by_earlier_tx {
+        "earlier-tx"
+      } else {
+        "same-tx"
+      };
       return cx.fail(Fail::new(
         format!("c06|reinscription-not-flagged|{how}"),
         format!(
-          "after {stop} blocks: {} was inscribed on sat {:?}, which already carried {:?}, but has no reinscription charm",
+          "after {stop} blocks: {} was inscribed on sat {:?}, which already carried {:?}, but has no reinscription charm (envelope in input {} at envelope offset {}, input value {}, pointer field {}, pointer effective {}, revealed in block {} tx {})",
           iid(&inscription.id),
           inscription.sat,
-          inscription.sat_occupants_before.iter().map(iid).collect::<Vec<_>>()
+          inscription.sat_occupants_before.iter().map(iid).collect::<Vec<_>>(),
+          inscription.input,
+          inscription.envelope_offset,
+          inscription.input_value,
+          inscription.has_pointer_field,
+          inscription.pointer_effective,
+          inscription.height,
+          inscription.tx_position
         ),
       ));
     }
